@@ -10,7 +10,7 @@ git -C $WT checkout -q --detach "$(git -C /repo rev-parse HEAD)"
 git -C $WT apply "$PATCH"
 cd /verif
 set +e
-VERIF_REPO=$WT VERIF_BUILD=/tmp/mut/chkbuild ./check "$@"
+VERIF_REPO=$WT VERIF_BUILD=/tmp/mut/chkbuild VERIF_EVIDENCE=/tmp/mut/chkevidence ./check "$@"
 rc=$?
 git -C $WT checkout -q -- .
 echo "seedcheck exit=$rc"
